@@ -950,7 +950,7 @@ def asgi_case(kind, n, d, fails, aw, mode=0, encfail=None):
         elif kind == "sse" and mode == 2 and c == b"\n":
             items.append(len(items))
     other = state["other"]
-    if not st["started"]:
+    if not st["started"] and mode != 4:
         closed = 0
     elif fin_runs == 1 and agen_closed:
         closed = 1
@@ -1252,6 +1252,10 @@ def oracle_outcome(line, out, asgi=False):
             return ("the producer's cleanup (which awaits) began %s and was cut short by a cancellation: it never ran to "
                     "its end" % {"close": "when the response closed the producer", "cancel": "on the response's cancel()",
                                  "end": "when the producer ended by itself"}[d["cut"]])
+        if len(a) > 5 and a[5] == "4" and int(d["closed"]) != 1:
+            # an iterator object holds its resource from construction on: handed to a response that was called, it is
+            # released by that response whether or not a first item was ever asked for
+            return "the producer object's aclose() was not called exactly once (%s)" % d["closed"]
         if int(d["started"]) and int(d["closed"]) != 1:
             return "the generator was started but its cleanup did not run exactly once (%s)" % d["closed"]
         if len(items) > int(d["y"]):
@@ -1292,7 +1296,9 @@ def oracle_outcome(line, out, asgi=False):
             return "%d events delivered before the failing one, expected %d" % (len(items), min(n, j))
         return None
     n, k = int(a[1]), int(a[2])
-    if int(d["closed"]) != 1 and not (a[0] == "wsgi_stream" and k == 0):
+    if int(d["closed"]) != 1 and not (k == 0 and int(d["closed"]) == 0):
+        # (k = 0: a producer that was never started needs no close; one that was started and not cleaned up has
+        # been reported above through finally/started)
         return "generator closed %s times" % d["closed"]
     if len(items) != min(n, k):
         return "read %d events before the close, expected %d" % (len(items), min(n, k))
@@ -1447,6 +1453,9 @@ def cases(rng, tier):
                         if mode == 3 and (n > 3 or (not thorough and fails)):
                             continue
                         yield "wsgi_real %d %d %d %d%s" % (n, k, fails, mode, "" if rep == 0 else " r%d" % rep)
+            # the server closes the body iterable before it ever asked for a chunk: nothing may be left running
+            for fails in (0, 1):
+                yield "wsgi_real %d 0 %d 0%s" % (n, fails, "" if rep == 0 else " r%d" % rep)
     # (4) ASGI: every real execution must be a run of the model (trace acceptor)
     yield from trace_cases(tier)
 
